@@ -53,8 +53,8 @@ type amap = ads.Map[[32]byte, hkey, hval]
 type aset = ads.Set[[32]byte, hkey]
 
 // codec: which serializers an instance is constructed with — one letter each for the identifier, the key and
-// the value: i = the bytes themselves, p = one leading tag byte, r = the bytes in reverse order, l = one leading
-// length byte.  All of them round-trip; only `i` of the identifier codec stores the raw 32 bytes of the root.
+// the value: i = the bytes themselves, p = one leading tag byte, r = the bytes in reverse order, l = two leading
+// length bytes (big endian).  All of them round-trip; only `i` of the identifier codec stores the raw 32 bytes of the root.
 type codec struct{ id, key, val byte }
 
 var identityCodec = codec{'i', 'i', 'i'}
@@ -87,7 +87,7 @@ func encBytes(c, tag byte, b []byte) []byte {
 	case 'r':
 		return reversed(b)
 	case 'l':
-		return append([]byte{byte(len(b))}, b...)
+		return append([]byte{byte(len(b) >> 8), byte(len(b))}, b...)
 	}
 
 	return b
@@ -105,11 +105,11 @@ func decBytes(c, tag byte, b []byte) ([]byte, error) {
 	case 'r':
 		return reversed(b), nil
 	case 'l':
-		if len(b) < 1 || int(b[0]) != len(b)-1 {
+		if len(b) < 2 || int(b[0])<<8|int(b[1]) != len(b)-2 {
 			return nil, errDecode
 		}
 
-		return b[1:], nil
+		return b[2:], nil
 	}
 
 	return b, nil
@@ -527,6 +527,8 @@ func valKind(tok string) string {
 		return "undecodable"
 	case strings.HasPrefix(tok, "cc"):
 		return "short-decode"
+	case len(tok) > 400:
+		return "very-long"
 	case len(tok) > 16:
 		return "long"
 	}
@@ -1343,13 +1345,31 @@ func (g *gen) key() string {
 	if g.rng.Chance(1, 90) {
 		return "bd01" // encodes, but its stored form does not decode
 	}
+	if g.rng.Chance(1, 120) {
+		return "4c" + longHex(299) // a 300-byte key
+	}
 
 	return hx.Pick(g.rng, g.keys)
 }
 
+// longHex: n bytes (i mod 251), as a value / key token: lengths beyond one length byte and beyond a trie record's usual size
+func longHex(n int) string {
+	b := make([]byte, n)
+	for i := range b {
+		b[i] = byte(i % 251)
+	}
+
+	return hex.EncodeToString(b)
+}
+
+var longValues = []string{longHex(300), longHex(256), longHex(255), longHex(5000)}
+
 func (g *gen) val() string {
 	if g.rng.Chance(1, 30) {
 		return hx.Pick(g.rng, []string{"ee01", "dd01", "cc0102", "dd", "cc"})
+	}
+	if g.rng.Chance(1, 50) {
+		return hx.Pick(g.rng, longValues)
 	}
 
 	if g.vals != nil {
